@@ -12,6 +12,10 @@ MEMO_DECORATORS = {"lru_cache", "cache", "cached_property", "memoize"}
 
 
 def classify(it, a):
+    if a[0] == "der" and isinstance(a[1], tuple) and a[1] and a[1][0] == "vars":
+        srcs = [o for o in it.origins(frozenset([a])) if o[0] == "src"]
+        if srcs:
+            return "argument", f"is the attribute dictionary (vars()) of a value reached from the caller's object {fmt_atom(srcs[0])}"
     if a[0] == "src":
         return "argument", f"may alias the caller's object {fmt_atom(a)}"
     if a[0] in ("class", "module", "func"):
@@ -84,6 +88,8 @@ def run(an: Analysis, rep):
                                 todo.extend(vals)
                     elif a[0] == "src" and entry == "to_json" and it._src_maybe_mutable(a):
                         shared.append(f"returns the argument's own mutable object {fmt_atom(a)}")
+                    elif a[0] == "der" and classify(it, a)[0] == "argument":
+                        shared.append("a returned object " + classify(it, a)[1] + ": writing to the returned document rewrites the data it came from")
                 rep.add("R12.4", f"{entry}::returned value", not shared, an.prog.function(
                     {"to_json": "code_data::CodeData.to_json_data", "from_json": "code_data::CodeData.from_json_data",
                      "normalize": "code_data::CodeData.normalize", "from_code": "code_data::CodeData.from_code"}[entry]).module.relpath,
@@ -93,6 +99,8 @@ def run(an: Analysis, rep):
     from . import c08
     rep.run(c08.r083, an, SharedRules(rep, "R12.5", "data built from a JSON document / code object keeps no reference to a mutable part of its argument (shared with C08's R08.3): "
                                                    "mutating the document afterwards cannot change the CodeData"))
+    rep.run(c08.r084, an, rep, rule="R12.6")
+    rep.rule("R12.6", "results of repeated calls compare equal: the key behind Constant.__eq__ is reflexive (NaNs identified) (shared with C08's R08.4)", 9)
     rep.stats.update(an.stats(interps))
     rep.stats["configurations"] = [f"{e}@{vname(V)}" for e in API for V in VERSIONS]
     rep.assumptions += [
